@@ -59,6 +59,14 @@ if __name__ == "__main__":
     mk("c10-register-after-gate", R + "cancel_on_shutdown.py", "        with self._shutdown.ensure_alive():\n            with self._lock:\n                future = self._delegate.submit(*args, **kwargs)\n                self._futures.add(future)\n                future.add_done_callback(self._futures.discard)\n            return future", "        with self._shutdown.ensure_alive():\n            future = self._delegate.submit(*args, **kwargs)\n        with self._lock:\n            self._futures.add(future)\n            future.add_done_callback(self._futures.discard)\n        return future")
     mk("c10-snapshot-before-flag", R + "cancel_on_shutdown.py", "        if not self._shutdown():\n            return\n        metrics.EXEC_INPROGRESS.labels(\n            type=\"cancel_on_shutdown\", executor=self._name\n        ).dec()\n        with self._lock:\n            futures = self._futures.copy()\n", "        with self._lock:\n            futures = self._futures.copy()\n        if not self._shutdown():\n            return\n        metrics.EXEC_INPROGRESS.labels(\n            type=\"cancel_on_shutdown\", executor=self._name\n        ).dec()\n")
     mk("c10-no-delegate-shutdown-when-empty", R + "cancel_on_shutdown.py", "        self._delegate.shutdown(wait, **_kwargs)", "        if futures or wait:\n            self._delegate.shutdown(wait, **_kwargs)")
+    # C11
+    mk("c11-retry-no-join", R + "retry.py", "            if wait:\n                self._log.debug(\"Waiting for thread\")\n                self._submit_thread.join(MAX_TIMEOUT)", "            if wait and False:\n                self._submit_thread.join(MAX_TIMEOUT)")
+    mk("c11-poll-drops-kwargs", R + "poll.py", "            self._poll_event.set()\n            self._delegate.shutdown(wait, **_kwargs)", "            self._poll_event.set()\n            self._delegate.shutdown(wait)")
+    mk("c11-throttle-loop-no-flag-test", R + "throttle.py", "    if executor._shutdown.is_shutdown or is_shutdown():\n        return\n\n    throttle = executor._eval_throttle()", "    if is_shutdown():\n        return\n\n    throttle = executor._eval_throttle()")
+    mk("c11-map-shutdown-not-idempotent", R + "map.py", "        if self._shutdown():\n            self._metric_exec_inprogress.dec()\n            self._delegate.shutdown(wait, **_kwargs)", "        if self._shutdown() or True:\n            self._delegate.shutdown(wait, **_kwargs)")
+    mk("c11-timeout-wait-ignored", R + "timeout.py", "            self._delegate.shutdown(wait, **_kwargs)\n            if wait:\n                self._job_thread.join(MAX_TIMEOUT)", "            self._delegate.shutdown(True, **_kwargs)\n            if wait:\n                self._job_thread.join(MAX_TIMEOUT)")
+    mk("c11-retry-shutdown-no-wake", R + "retry.py", "            metrics.EXEC_INPROGRESS.labels(executor=self._name, type=\"retry\").dec()\n            self._wake_thread()", "            metrics.EXEC_INPROGRESS.labels(executor=self._name, type=\"retry\").dec()")
+    mk("c11-cos-submit-wrong-message", R + "helpers.py", "raise RuntimeError(\"cannot schedule new futures after shutdown\")", "raise RuntimeError(\"cannot schedule new futures after interpreter shutdown\")")
     # C07
     mk("c07-throttle-ge-to-gt", R + "throttle.py", "(executor._running_count.value >= throttle)", "(executor._running_count.value > throttle)")
     mk("c07-incr-after-submit", R + "throttle.py", "            executor._running_count.incr()\n            metrics.THROTTLE_QUEUE", "            metrics.THROTTLE_QUEUE")
